@@ -1180,453 +1180,4 @@ def raBad (G : Grp) (n : Nat) (Cj : List Int) (s : List (Tag × Int)) : Bool :=
   | .ok r => decide (0 < r.1)
   | .error _ => true
 
-/-- `answeredOf` on one stream -/
-def anS (n : Nat) : Nat → List (Tag × Int) → List Nat → List Nat
-  | 0, _, acc => acc
-  | f + 1, s, acc =>
-    match popS none s with
-    | (none, _) => acc
-    | (some w, s1) =>
-      if getUi w ≥ n then acc
-      else
-        match popS none s1 with
-        | (none, _) => acc ++ [getUi w]
-        | (some _, s2) =>
-          match popS none s2 with
-          | (none, _) => acc ++ [getUi w]
-          | (some _, s3) => anS n f s3 (acc ++ [getUi w])
-
-theorem ag_answeredOf (n j f : Nat) (I : Inbox) (hj : j < I.b.length) (acc : List Nat) :
-    answeredOf n j f I acc = anS n f (bsOf I j) acc := by
-  induction f generalizing I acc with
-  | zero => rfl
-  | succ f ih =>
-    unfold answeredOf anS
-    rw [ag_popB]
-    rcases hp1 : popS none (bsOf I j) with ⟨_ | w, s1⟩
-    · rfl
-    · simp only
-      split
-      · rfl
-      · rw [ag_popB, ag_bsOf_setB_self I j s1 hj, ag_setB_setB]
-        rcases hp2 : popS none s1 with ⟨_ | foo, s2⟩
-        · rfl
-        · simp only
-          rw [ag_popB, ag_bsOf_setB_self I j s2 hj, ag_setB_setB]
-          rcases hp3 : popS none s2 with ⟨_ | bar, s3⟩
-          · rfl
-          · simp only
-            rw [ih (setB I j s3) (by simpa using hj), ag_bsOf_setB_self I j s3 hj]
-
-/-- whether dealer `k` (stream `s`) left a complainer without an answer -/
-def unB (st : GenSt) (k : Nat) (s : List (Tag × Int)) : Bool :=
-  (st.complainers.getD k []).any (fun c => !(anS st.n (st.n + 1) s []).contains c)
-
-theorem ag_mem_unanswered (st : GenSt) (j : Nat) (I : Inbox) (hj : j < I.b.length) (x : Nat) :
-    x ∈ unanswered st j I ↔ x = j ∧ unB st j (bsOf I j) = true := by
-  unfold unanswered unB
-  rw [ag_answeredOf _ _ _ _ hj]
-  simp only [List.mem_map, List.mem_filter, List.any_eq_true]
-  constructor
-  · rintro ⟨c, ⟨h1, h2⟩, rfl⟩
-    exact ⟨rfl, c, h1, h2⟩
-  · rintro ⟨rfl, c, h1, h2⟩
-    exact ⟨c, ⟨h1, h2⟩, rfl⟩
-
-/-- step 1(d): the loop over the dealers -/
-theorem ag_genResolveGo (hG : ValidGrp G) (st : GenSt) (L : List Nat) (hL : L.Nodup) (I : Inbox)
-    (hI : ∀ j ∈ L, j < I.b.length) (s sp : List Int) (cm : List Nat) :
-    ∃ I' s' sp' cm', genResolveGo G st L I s sp cm = .ok (I', s', sp', cm') ∧
-      ∀ k, k ∈ cm' ↔ k ∈ cm ∨ (k ∈ L ∧ (st.t < getN st.cnt k ∨
-        (k ≠ st.i ∧ (raBad G st.n (getRow st.C k) (bsOf I k) = true ∨ unB st k (bsOf I k) = true)))) := by
-  induction L generalizing I s sp cm with
-  | nil => exact ⟨I, s, sp, cm, rfl, by simp⟩
-  | cons j rest ih =>
-    have hnd := List.nodup_cons.mp hL
-    have hIr : ∀ k ∈ rest, k < I.b.length := fun k hk => hI k (List.mem_cons_of_mem _ hk)
-    unfold genResolveGo
-    by_cases hc : getN st.cnt j > st.t
-    · simp only [hc, if_true]
-      obtain ⟨I', s', sp', cm', h, hm⟩ := ih hnd.2 I hIr s sp (cm ++ [j])
-      refine ⟨I', s', sp', cm', h, ?_⟩
-      intro k
-      rw [hm k]
-      by_cases hkj : k = j
-      · subst hkj
-        simp [hc]
-      · simp [hkj]
-    · simp only [hc, if_false]
-      by_cases hji : j = st.i
-      · simp only [hji, if_true]
-        obtain ⟨I', s', sp', cm', h, hm⟩ := ih hnd.2 I hIr s sp cm
-        refine ⟨I', s', sp', cm', h, ?_⟩
-        intro k
-        rw [hm k]
-        by_cases hkj : k = j
-        · subst hkj
-          have : k ∉ rest := hnd.1
-          have hc' : ¬ st.t < getN st.cnt st.i := by rw [← hji]; exact hc
-          simp [hji, hc']
-        · have hkj' : ¬ k = st.i := fun e => hkj (e.trans hji.symm)
-          simp [hkj']
-      · simp only [hji, if_false]
-        obtain ⟨⟨bad, rst⟩, hr⟩ := ag_raS_total hG st.n (getRow st.C j) (st.n + 1) (bsOf I j)
-        have hra := ag_genReadAnswers (G := G) st j (st.n + 1) I (hI j (by simp)) s sp cm
-        rw [hr] at hra
-        obtain ⟨s1, sp1, hra⟩ := hra
-        obtain ⟨I', s', sp', cm', h, hm⟩ := ih hnd.2 (setB I j rst)
-          (fun k hk => by simpa using hIr k hk) s1 sp1 (cm ++ List.replicate bad j ++ unanswered st j I)
-        refine ⟨I', s', sp', cm', ?_, ?_⟩
-        · simp only [hra, bind, Except.bind]
-          exact h
-        · intro k
-          rw [hm k]
-          by_cases hkj : k = j
-          · subst hkj
-            have : k ∉ rest := hnd.1
-            simp [this, hc, hji, raBad, hr, List.mem_replicate, ag_mem_unanswered st k I (hI k (by simp)),
-              Nat.pos_iff_ne_zero]
-          · have hb : bsOf (setB I j rst) k = bsOf I k := ag_bsOf_setB_ne _ _ _ _ (Ne.symm hkj)
-            simp [hkj, hb, List.mem_replicate, ag_mem_unanswered st j I (hI j (by simp))]
-
-/-- the test of equation (4) for dealer `k` -/
-def chk4 (G : Grp) (i : Nat) (C : List (List Int)) (s sp : List Int) (k : Nat) : Bool :=
-  match pedS G (getI s k) (getI sp k), commitProd G.p (i + 1) (getRow C k) with
-  | .ok lhs, .ok rhs => lhs.2 != rhs
-  | _, _ => true
-
-theorem ag_getI_InR (q : Int) (hq : 0 < q) (l : List Int) (hl : InR q l) (k : Nat) : (getI l k).natAbs < q.natAbs := by
-  unfold getI
-  by_cases hk : k < l.length
-  · rw [List.getD_eq_getElem _ _ hk]
-    exact hl _ (List.getElem_mem hk)
-  · rw [List.getD_eq_default _ _ (by omega)]
-    simp; omega
-
-/-- step 1(b), equation (4): the loop over the dealers -/
-theorem ag_genCheck4 (hG : ValidGrp G) (st : GenSt) (C : List (List Int)) (s sp : List Int)
-    (hs : InR G.q s) (hsp : InR G.q sp) (L : List Nat) (gs : List Int) (cm : List Nat) :
-    ∃ gs' cm', genCheck4 G st C s sp L gs cm = .ok (gs', cm') ∧
-      ∀ k, k ∈ cm' ↔ k ∈ cm ∨ (k ∈ L ∧ chk4 G st.i C s sp k = true) := by
-  induction L generalizing gs cm with
-  | nil => exact ⟨gs, cm, rfl, by simp⟩
-  | cons j rest ih =>
-    obtain ⟨a, l, hped, -⟩ := pedS_val hG (getI s j) (getI sp j)
-      (ag_getI_InR G.q hG.vg.q_pos s hs j) (ag_getI_InR G.q hG.vg.q_pos sp hsp j)
-    obtain ⟨r, hr⟩ := ag_commitProd_total hG (st.i + 1) (getRow C j)
-    obtain ⟨gs', cm', h, hm⟩ := ih (gs.set j a) (if (l != r) = true then cm ++ [j] else cm)
-    refine ⟨gs', cm', ?_, ?_⟩
-    · unfold genCheck4
-      simp only [hped, hr, bind, Except.bind]
-      exact h
-    · intro k
-      rw [hm k]
-      by_cases hkj : k = j
-      · subst hkj
-        by_cases hlr : (l != r) = true
-        · simp [chk4, hped, hr, hlr]
-        · simp [chk4, hped, hr, hlr]
-      · split <;> simp [hkj]
-
-/-! the complaint counters -/
-
-theorem ag_bumpL_length (cnt ws : List Nat) : (bumpL cnt ws).length = cnt.length := by
-  induction ws generalizing cnt with
-  | nil => rfl
-  | cons w ws ih =>
-    simp only [bumpL, List.foldl_cons] at ih ⊢
-    rw [ih]
-    simp
-
-theorem ag_bumpL_getN (cnt ws : List Nat) (x : Nat) (hx : x < cnt.length) :
-    getN (bumpL cnt ws) x = getN cnt x + ws.count x := by
-  induction ws generalizing cnt with
-  | nil => simp [bumpL]
-  | cons w ws ih =>
-    have h := ih (cnt.set w (getN cnt w + 1)) (by simpa using hx)
-    simp only [bumpL, List.foldl_cons] at h ⊢
-    rw [h, ag_getN_set, List.count_cons]
-    by_cases hwx : w = x
-    · subst hwx
-      simp [hx]
-      omega
-    · simp [hwx]
-
-def rcNews (n : Nat) (s : List (Tag × Int)) : List Nat := (rcS n (n + 1) 0 [] s).1
-def rcBad (n : Nat) (s : List (Tag × Int)) : Bool := decide (0 < (rcS n (n + 1) 0 [] s).2.1)
-def rcRest (n : Nat) (s : List (Tag × Int)) : List (Tag × Int) := (rcS n (n + 1) 0 [] s).2.2
-
-theorem ag_genCollectGo_cons (st : GenSt) (j : Nat) (rest : List Nat) (I : Inbox) (hj : j < I.b.length)
-    (hji : j ≠ st.i) (cnt cf cm : List Nat) :
-    genCollectGo st (j :: rest) I cnt cf cm =
-      genCollectGo st rest (setB I j (rcRest st.n (bsOf I j))) (bumpL cnt (rcNews st.n (bsOf I j)))
-        (cf ++ ((rcNews st.n (bsOf I j)).filter (fun w => w = st.i)).map (fun _ => j))
-        (cm ++ List.replicate (rcS st.n (st.n + 1) 0 [] (bsOf I j)).2.1 j) := by
-  rw [genCollectGo]
-  simp only [hji, if_false]
-  rw [ag_genReadComplaints st j (st.n + 1) 0 [] I hj]
-  rfl
-
-/-- step 1(c): lengths -/
-theorem ag_genCollectGo_glob (st : GenSt) (L : List Nat) (I : Inbox) (hI : ∀ j ∈ L, j < I.b.length)
-    (cnt cf cm : List Nat) :
-    (genCollectGo st L I cnt cf cm).1.b.length = I.b.length ∧ (genCollectGo st L I cnt cf cm).1.p = I.p ∧
-    (genCollectGo st L I cnt cf cm).2.1.length = cnt.length := by
-  induction L generalizing I cnt cf cm with
-  | nil => simp [genCollectGo]
-  | cons j rest ih =>
-    by_cases hji : j = st.i
-    · rw [genCollectGo]
-      simp only [hji, if_true]
-      exact ih I (fun k hk => hI k (List.mem_cons_of_mem _ hk)) cnt cf cm
-    · rw [ag_genCollectGo_cons st j rest I (hI j (by simp)) hji]
-      obtain ⟨h1, h2, h3⟩ := ih (setB I j (rcRest st.n (bsOf I j)))
-        (fun k hk => by simpa using hI k (List.mem_cons_of_mem _ hk))
-        (bumpL cnt (rcNews st.n (bsOf I j)))
-        (cf ++ ((rcNews st.n (bsOf I j)).filter (fun w => w = st.i)).map (fun _ => j))
-        (cm ++ List.replicate (rcS st.n (st.n + 1) 0 [] (bsOf I j)).2.1 j)
-      exact ⟨by rw [h1]; simp, by rw [h2]; rfl, by rw [h3, ag_bumpL_length]⟩
-
-/-- step 1(c): a sender that is not read -/
-theorem ag_genCollectGo_frame (st : GenSt) (k : Nat) (L : List Nat) (I : Inbox) (hI : ∀ j ∈ L, j < I.b.length)
-    (cnt cf cm : List Nat) (hk : k ∉ L ∨ k = st.i) :
-    bsOf (genCollectGo st L I cnt cf cm).1 k = bsOf I k ∧
-    (k ∈ (genCollectGo st L I cnt cf cm).2.2.2 ↔ k ∈ cm) := by
-  induction L generalizing I cnt cf cm with
-  | nil => simp [genCollectGo]
-  | cons j rest ih =>
-    have hk' : k ∉ rest ∨ k = st.i := by
-      rcases hk with h | h
-      · exact Or.inl (fun hh => h (List.mem_cons_of_mem _ hh))
-      · exact Or.inr h
-    by_cases hji : j = st.i
-    · rw [genCollectGo]
-      simp only [hji, if_true]
-      exact ih I (fun k hk => hI k (List.mem_cons_of_mem _ hk)) cnt cf cm hk'
-    · rw [ag_genCollectGo_cons st j rest I (hI j (by simp)) hji]
-      have hkj : j ≠ k := by
-        rintro rfl
-        rcases hk with h | h
-        · exact h (by simp)
-        · exact hji h
-      obtain ⟨h1, h2⟩ := ih (setB I j (rcRest st.n (bsOf I j)))
-        (fun k hk => by simpa using hI k (List.mem_cons_of_mem _ hk))
-        (bumpL cnt (rcNews st.n (bsOf I j)))
-        (cf ++ ((rcNews st.n (bsOf I j)).filter (fun w => w = st.i)).map (fun _ => j))
-        (cm ++ List.replicate (rcS st.n (st.n + 1) 0 [] (bsOf I j)).2.1 j) hk'
-      refine ⟨by rw [h1, ag_bsOf_setB_ne _ _ _ _ hkj], ?_⟩
-      rw [h2]
-      simp [List.mem_append, List.mem_replicate, Ne.symm hkj]
-
-/-- step 1(c): a sender that is read -/
-theorem ag_genCollectGo_hit (st : GenSt) (k : Nat) (L : List Nat) (hL : L.Nodup) (I : Inbox)
-    (hI : ∀ j ∈ L, j < I.b.length) (cnt cf cm : List Nat) (hk : k ∈ L) (hki : k ≠ st.i) :
-    bsOf (genCollectGo st L I cnt cf cm).1 k = rcRest st.n (bsOf I k) ∧
-    (k ∈ (genCollectGo st L I cnt cf cm).2.2.2 ↔ k ∈ cm ∨ rcBad st.n (bsOf I k) = true) := by
-  induction L generalizing I cnt cf cm with
-  | nil => simp at hk
-  | cons j rest ih =>
-    have hnd := List.nodup_cons.mp hL
-    by_cases hji : j = st.i
-    · rw [genCollectGo]
-      simp only [hji, if_true]
-      have hk2 : k ∈ rest := by
-        rcases List.mem_cons.mp hk with h | h
-        · exact absurd (h.trans hji) hki
-        · exact h
-      exact ih hnd.2 I (fun k hk => hI k (List.mem_cons_of_mem _ hk)) cnt cf cm hk2
-    · rw [ag_genCollectGo_cons st j rest I (hI j (by simp)) hji]
-      have hI' : ∀ k ∈ rest, k < (setB I j (rcRest st.n (bsOf I j))).b.length :=
-        fun k hk => by simpa using hI k (List.mem_cons_of_mem _ hk)
-      rcases List.mem_cons.mp hk with h | h
-      · subst h
-        obtain ⟨h1, h2⟩ := ag_genCollectGo_frame st k rest _ hI'
-          (bumpL cnt (rcNews st.n (bsOf I k)))
-          (cf ++ ((rcNews st.n (bsOf I k)).filter (fun w => w = st.i)).map (fun _ => k))
-          (cm ++ List.replicate (rcS st.n (st.n + 1) 0 [] (bsOf I k)).2.1 k) (Or.inl hnd.1)
-        refine ⟨by rw [h1, ag_bsOf_setB_self _ _ _ (hI k (by simp))], ?_⟩
-        rw [h2]
-        simp [List.mem_append, List.mem_replicate, rcBad, Nat.pos_iff_ne_zero]
-      · have hkj : j ≠ k := by
-          rintro rfl
-          exact hnd.1 h
-        obtain ⟨h1, h2⟩ := ih hnd.2 (setB I j (rcRest st.n (bsOf I j))) hI'
-          (bumpL cnt (rcNews st.n (bsOf I j)))
-          (cf ++ ((rcNews st.n (bsOf I j)).filter (fun w => w = st.i)).map (fun _ => j))
-          (cm ++ List.replicate (rcS st.n (st.n + 1) 0 [] (bsOf I j)).2.1 j) h
-        rw [ag_bsOf_setB_ne _ _ _ _ hkj] at h1 h2
-        refine ⟨h1, ?_⟩
-        rw [h2]
-        simp [List.mem_append, List.mem_replicate, Ne.symm hkj]
-
-/-- step 1(c): the counters after the loop -/
-theorem ag_genCollectGo_cnt (st : GenSt) (L : List Nat) (hL : L.Nodup) (I : Inbox)
-    (hI : ∀ j ∈ L, j < I.b.length) (cnt cf cm : List Nat) (w : Nat) (hw : w < cnt.length) :
-    getN (genCollectGo st L I cnt cf cm).2.1 w =
-      getN cnt w + ((L.filter (fun x => x ≠ st.i)).map (fun x => (rcNews st.n (bsOf I x)).count w)).sum := by
-  induction L generalizing I cnt cf cm with
-  | nil => simp [genCollectGo]
-  | cons j rest ih =>
-    have hnd := List.nodup_cons.mp hL
-    by_cases hji : j = st.i
-    · rw [genCollectGo]
-      simp only [hji, if_true]
-      rw [ih hnd.2 I (fun k hk => hI k (List.mem_cons_of_mem _ hk)) cnt cf cm hw]
-      simp
-    · rw [ag_genCollectGo_cons st j rest I (hI j (by simp)) hji]
-      rw [ih hnd.2 (setB I j (rcRest st.n (bsOf I j)))
-        (fun k hk => by simpa using hI k (List.mem_cons_of_mem _ hk)) _ _ _ (by rw [ag_bumpL_length]; exact hw)]
-      rw [ag_bumpL_getN _ _ _ hw]
-      have hcongr : ((rest.filter (fun x => x ≠ st.i)).map
-            (fun x => (rcNews st.n (bsOf (setB I j (rcRest st.n (bsOf I j))) x)).count w)) =
-          ((rest.filter (fun x => x ≠ st.i)).map (fun x => (rcNews st.n (bsOf I x)).count w)) := by
-        apply List.map_congr_left
-        intro x hx
-        have hxr : x ∈ rest := (List.mem_filter.mp hx).1
-        have hjx : j ≠ x := by
-          rintro rfl
-          exact hnd.1 hxr
-        rw [ag_bsOf_setB_ne _ _ _ _ hjx]
-      rw [hcongr]
-      simp [hji]
-      omega
-
-/-! the complainers -/
-
-theorem ag_complaintsOf (n j f it : Nat) (dup : List Nat) (I : Inbox) (hj : j < I.b.length) :
-    complaintsOf n j f it dup I = dup ++ (rcS n f it dup (bsOf I j)).1 := by
-  induction f generalizing it dup I with
-  | zero => simp [complaintsOf, rcS]
-  | succ f ih =>
-    unfold complaintsOf rcS
-    rw [ag_popB]
-    rcases hp : popS none (bsOf I j) with ⟨_ | v, s1⟩
-    · simp
-    · simp only
-      by_cases h1 : getUi v < n ∧ ¬ dup.contains (getUi v) = true
-      · simp only [h1, if_true, true_and]
-        by_cases h2 : it + 1 ≤ n
-        · simp only [h2, if_true]
-          rw [ih _ _ (setB I j s1) (by simpa using hj), ag_bsOf_setB_self I j s1 hj]
-          simp
-        · simp [h2]
-      · simp only [h1, if_false]
-        by_cases h4 : getUi v < n
-        · simp only [h4, true_and]
-          by_cases h2 : it + 1 ≤ n
-          · simp only [h2, if_true]
-            rw [ih _ _ (setB I j s1) (by simpa using hj), ag_bsOf_setB_self I j s1 hj]
-          · simp [h2]
-        · simp [h4]
-
-/-- `complainers[who] += [j]` for every `who` of the list -/
-theorem ag_cpsFold_mem (j : Nat) (acc : List Nat) (cps : List (List Nat)) (k x : Nat) (hk : k < cps.length) :
-    ((acc.foldl (fun c who => c.set who (c.getD who [] ++ [j])) cps).length = cps.length) ∧
-    (x ∈ (acc.foldl (fun c who => c.set who (c.getD who [] ++ [j])) cps).getD k [] ↔
-      x ∈ cps.getD k [] ∨ (x = j ∧ k ∈ acc)) := by
-  induction acc generalizing cps with
-  | nil => simp
-  | cons w acc ih =>
-    obtain ⟨h1, h2⟩ := ih (cps.set w (cps.getD w [] ++ [j])) (by simpa using hk)
-    simp only [List.foldl_cons]
-    refine ⟨by rw [h1]; simp, ?_⟩
-    rw [h2, ag_getD_set]
-    by_cases hwk : w = k
-    · subst hwk
-      simp [hk]
-      tauto
-    · have : ¬ k = w := fun e => hwk e.symm
-      simp [hwk, this]
-
-/-- step 1(c): who complained against `k` -/
-theorem ag_genComplainers (st : GenSt) (L : List Nat) (I : Inbox) (hI : ∀ j ∈ L, j < I.b.length)
-    (cps : List (List Nat)) (k x : Nat) (hk : k < cps.length) :
-    (genComplainers st L I cps).length = cps.length ∧
-    (x ∈ (genComplainers st L I cps).getD k [] ↔
-      x ∈ cps.getD k [] ∨ (x ∈ L ∧ x ≠ st.i ∧ k ∈ rcNews st.n (bsOf I x))) := by
-  induction L generalizing cps with
-  | nil => simp [genComplainers]
-  | cons j rest ih =>
-    have hIr : ∀ k ∈ rest, k < I.b.length := fun k hk => hI k (List.mem_cons_of_mem _ hk)
-    unfold genComplainers
-    by_cases hji : j = st.i
-    · simp only [hji, if_true]
-      obtain ⟨h1, h2⟩ := ih hIr cps hk
-      refine ⟨h1, ?_⟩
-      rw [h2]
-      constructor
-      · rintro (h | ⟨h3, h4, h5⟩)
-        · exact Or.inl h
-        · exact Or.inr ⟨List.mem_cons_of_mem _ h3, h4, h5⟩
-      · rintro (h | ⟨h3, h4, h5⟩)
-        · exact Or.inl h
-        · rcases List.mem_cons.mp h3 with e | e
-          · exact absurd e h4
-          · exact Or.inr ⟨e, h4, h5⟩
-    · simp only [hji, if_false]
-      obtain ⟨f1, f2⟩ := ag_cpsFold_mem j (complaintsOf st.n j (st.n + 1) 0 [] I) cps k x hk
-      obtain ⟨h1, h2⟩ := ih hIr
-        ((complaintsOf st.n j (st.n + 1) 0 [] I).foldl (fun c who => c.set who (c.getD who [] ++ [j])) cps)
-        (by rw [f1]; exact hk)
-      refine ⟨h1.trans f1, ?_⟩
-      rw [h2, f2, ag_complaintsOf _ _ _ _ _ _ (hI j (by simp))]
-      simp only [List.nil_append]
-      constructor
-      · rintro ((h | ⟨rfl, h⟩) | ⟨h3, h4, h5⟩)
-        · exact Or.inl h
-        · exact Or.inr ⟨by simp, hji, h⟩
-        · exact Or.inr ⟨List.mem_cons_of_mem _ h3, h4, h5⟩
-      · rintro (h | ⟨h3, h4, h5⟩)
-        · exact Or.inl (Or.inl h)
-        · rcases List.mem_cons.mp h3 with e | e
-          · subst e
-            exact Or.inl (Or.inr ⟨rfl, h5⟩)
-          · exact Or.inr ⟨e, h4, h5⟩
-
-/-- step 1(c): the senders that complained against the reader -/
-theorem ag_genCollectGo_cf (st : GenSt) (L : List Nat) (hL : L.Nodup) (I : Inbox)
-    (hI : ∀ j ∈ L, j < I.b.length) (cnt cf cm : List Nat) (x : Nat) :
-    x ∈ (genCollectGo st L I cnt cf cm).2.2.1 ↔
-      x ∈ cf ∨ (x ∈ L ∧ x ≠ st.i ∧ st.i ∈ rcNews st.n (bsOf I x)) := by
-  induction L generalizing I cnt cf cm with
-  | nil => simp [genCollectGo]
-  | cons j rest ih =>
-    have hnd := List.nodup_cons.mp hL
-    by_cases hji : j = st.i
-    · rw [genCollectGo]
-      simp only [hji, if_true]
-      rw [ih hnd.2 I (fun k hk => hI k (List.mem_cons_of_mem _ hk)) cnt cf cm]
-      constructor
-      · rintro (h | ⟨h3, h4, h5⟩)
-        · exact Or.inl h
-        · exact Or.inr ⟨List.mem_cons_of_mem _ h3, h4, h5⟩
-      · rintro (h | ⟨h3, h4, h5⟩)
-        · exact Or.inl h
-        · rcases List.mem_cons.mp h3 with e | e
-          · exact absurd e h4
-          · exact Or.inr ⟨e, h4, h5⟩
-    · rw [ag_genCollectGo_cons st j rest I (hI j (by simp)) hji]
-      rw [ih hnd.2 (setB I j (rcRest st.n (bsOf I j)))
-        (fun k hk => by simpa using hI k (List.mem_cons_of_mem _ hk))]
-      have hfr : ∀ y, y ∈ rest → bsOf (setB I j (rcRest st.n (bsOf I j))) y = bsOf I y := by
-        intro y hy
-        have hjy : j ≠ y := by
-          rintro rfl
-          exact hnd.1 hy
-        exact ag_bsOf_setB_ne _ _ _ _ hjy
-      simp only [List.mem_append, List.mem_map, List.mem_filter, decide_eq_true_eq]
-      constructor
-      · rintro ((h | ⟨a, ⟨h1, h2⟩, rfl⟩) | ⟨h3, h4, h5⟩)
-        · exact Or.inl h
-        · exact Or.inr ⟨by simp, hji, by rw [← h2]; exact h1⟩
-        · rw [hfr x h3] at h5
-          exact Or.inr ⟨List.mem_cons_of_mem _ h3, h4, h5⟩
-      · rintro (h | ⟨h3, h4, h5⟩)
-        · exact Or.inl (Or.inl h)
-        · rcases List.mem_cons.mp h3 with e | e
-          · subst e
-            exact Or.inl (Or.inr ⟨st.i, ⟨h5, rfl⟩, rfl⟩)
-          · rw [← hfr x e] at h5
-            exact Or.inr ⟨e, h4, h5⟩
-
 end Tmcg.DkgP
